@@ -98,7 +98,8 @@ C05A(r) ==
                                row == r.kernels[j]
                            IN /\ K # {} /\ row.sum = DurSum(K) /\ row.max = SetMax({ e.dur : e \in K }) /\ row.min = SetMin({ e.dur : e \in K })
                               /\ Abs(row.mean1000 * Cardinality(K) - 1000 * DurSum(K)) <= Cardinality(K),
-    anno_only    |-> \A j \in DOMAIN r.kernels : r.kernels[j].rank \in RK ]
+    anno_only    |-> \A j \in DOMAIN r.kernels : r.kernels[j].rank \in RK,
+    beyond_kernel_annotation |-> r.kaErr = "" /\ KernelAnnoOK(Range(r.gannos), Range(r.ka)) ]
 
 Clauses(r) == CASE r.prop = "C04" -> C04(r)
                 [] r.prop = "C05A" -> C05A(r)
